@@ -95,6 +95,8 @@ partial def loop (h : IO.FS.Stream) (d : DS) : IO Unit := do
   | ["O", "release", c] => fin { d with heldOpen := d.heldOpen.filter (· != c.toNat!) }
   | ["O", "close", c] => fin (applyActs d [.flip c.toNat!, .teardown c.toNat!])
   | ["O", "eof", c] => fin (applyActs d [.flip c.toNat!, .teardown c.toNat!])
+  -- hard write error: `c.closed = true` under the mutex, then `closeWithErrorWithoutLock` (same two steps)
+  | ["O", "werr", c] => fin (applyActs d [.flip c.toNat!, .teardown c.toNat!])
   | ["O", "holdclose"] => fin { d with heldClose := true }
   | ["O", "relclose"] => fin { d with heldClose := false }
   | "O" :: "stop" :: _ => fin (applyActs d [.stopListeners])
